@@ -326,6 +326,7 @@ static Result execute(const Toks &t) {
         auto go = [&](auto tag) {
             typedef typename decltype(tag)::type AMG; typename AMG::params prm;
             prm.coarse_enough = 3; prm.coarsening.over_interp = 1.0f; prm.coarsening.aggr.eps_strong = 0.08; prm.allow_rebuild = true; prm.direct_coarse = direct != 0; prm.npre = 1; prm.npost = 1;
+            if (!direct && s.A.n % 2 == 0) prm.max_levels = 2;      // hierarchy cut off by max_levels: the coarsest level is relaxed, never solved
             AMG amg(x.comm, std::make_tuple(nl, ptr, col, val), prm);
             amg.apply(f, y0);
             amg.rebuild(std::make_tuple(nl, ptr, col, val64)); amg.apply(f, y1);
